@@ -193,11 +193,12 @@ impl DcpsDomainParticipant {
         Ok(())
     }
 
-    #[tracing::instrument(skip(self))]
+    #[tracing::instrument(skip(self, runtime))]
     pub fn set_publisher_qos(
         &mut self,
         publisher_handle: &InstanceHandle,
         qos: QosKind<PublisherQos>,
+        runtime: &impl DdsRuntime,
     ) -> DdsResult<()> {
         let qos = match qos {
             QosKind::Default => self.domain_participant.default_publisher_qos.clone(),
@@ -213,6 +214,36 @@ impl DcpsDomainParticipant {
         };
 
         publisher.qos = qos;
+
+        // The publisher QoS (e.g. partition) is part of what its writers announce and match on
+        let mut enabled_writer_list = Vec::new();
+        let publisher_partition = publisher.qos.partition.clone();
+        for data_writer in &mut publisher.data_writer_list {
+            let unmatched_reader_list: Vec<_> = data_writer
+                .matched_subscription_list
+                .iter()
+                .filter(|s| {
+                    !super::discovery_methods::is_partition_matched(
+                        s.partition(),
+                        &publisher_partition,
+                    )
+                })
+                .map(|s| s.key().value)
+                .collect();
+            for key in unmatched_reader_list {
+                data_writer.remove_matched_subscription(&InstanceHandle::new(key));
+                data_writer.transport_writer.delete_matched_reader(key.into());
+                data_writer
+                    .status_condition
+                    .add_communication_state(crate::infrastructure::status::StatusKind::PublicationMatched);
+            }
+            if data_writer.enabled {
+                enabled_writer_list.push(data_writer.instance_handle);
+            }
+        }
+        for data_writer_handle in enabled_writer_list {
+            self.announce_data_writer(publisher_handle, &data_writer_handle, runtime);
+        }
         Ok(())
     }
 
